@@ -34,15 +34,14 @@ Fixpoint zipw {A B C : Type} (f : A -> B -> C) (la : list A) (lb : list B) : lis
   | _, _ => []
   end.
 
-(* ---- data_generator(data, _data_split, (b,)): the list of yielded pieces.
-   dict / list: an EMPTY container yields itself MAX_ITER (mx) times; a non-empty one zips the
-   generators of its children (stops with the shortest).  tuple: no special case, so an empty
-   tuple yields nothing. ---- *)
+(* ---- data_generator(data, _data_split, (b,)) with bound mx on the copies of an empty container:
+   the list of yielded pieces.  An EMPTY dict / list / tuple yields itself mx times; a non-empty
+   container zips the generators of its children (stops with the shortest). ---- *)
 Fixpoint gen (mx b : nat) (d : data) : list data :=
   match d with
   | Leaf rows => map Leaf (chunk b rows)
   | Node k f => match genf mx b f with
-                | None => match k with KTuple => [] | _ => repeat (Node k FNil) mx end
+                | None => repeat (Node k FNil) mx
                 | Some fs => map (Node k) fs
                 end
   end
@@ -52,6 +51,53 @@ with genf (mx b : nat) (f : forest) : option (list forest) :=
   | FCons key d r => Some (match genf mx b r with
                            | None => map (fun x => FCons key x FNil) (gen mx b d)
                            | Some rs => zipw (FCons key) (gen mx b d) rs
+                           end)
+  end.
+
+(* _has_array *)
+Fixpoint has_leaf (d : data) : bool :=
+  match d with
+  | Leaf _ => true
+  | Node _ f => has_leaff f
+  end
+with has_leaff (f : forest) : bool :=
+  match f with
+  | FNil => false
+  | FCons _ d r => has_leaf d || has_leaff r
+  end.
+(* total number of batches of all arrays *)
+Fixpoint leaf_bound (b : nat) (d : data) : nat :=
+  match d with
+  | Leaf rows => length (chunk b rows)
+  | Node _ f => leaf_boundf b f
+  end
+with leaf_boundf (b : nat) (f : forest) : nat :=
+  match f with
+  | FNil => O
+  | FCons _ d r => leaf_bound b d + leaf_boundf b r
+  end.
+(* data_split(data, b): "if _has_array(data): MAX_ITER = sys.maxsize", otherwise MAX_ITER (mx) = 1000.
+   sys.maxsize is represented by leaf_bound, which is never smaller than the number of batches of
+   the shortest array: by Data_proofs.bound_irrelevant every bound >= that number gives the same pieces. *)
+Definition data_split (mx b : nat) (d : data) : list data :=
+  gen (if has_leaf d then leaf_bound b d else mx) b d.
+
+(* the generator before the repairs 8ca0a85 / 6a76cf5: an empty tuple was not special-cased (it
+   yields nothing) and the bound MAX_ITER applied to every structure *)
+Fixpoint gen_old (mx b : nat) (d : data) : list data :=
+  match d with
+  | Leaf rows => map Leaf (chunk b rows)
+  | Node k f => match genf_old mx b f with
+                | None => match k with KTuple => [] | _ => repeat (Node k FNil) mx end
+                | Some fs => map (Node k) fs
+                end
+  end
+with genf_old (mx b : nat) (f : forest) : option (list forest) :=
+  match f with
+  | FNil => None
+  | FCons key d r => Some (match genf_old mx b r with
+                           | None => map (fun x => FCons key x FNil) (gen_old mx b d)
+                           | Some rs => zipw (FCons key) (gen_old mx b d) rs
                            end)
   end.
 
@@ -146,7 +192,7 @@ Definition data_shape (d : data) : option nat := option_map (@length Z) (first_l
 
 (* ---- batch_call(function, data, batch): data_merge of [function(i) for i in data_split(data, batch)] ---- *)
 Definition batch_call (fn : data -> data) (mx b : nat) (d : data) : option data :=
-  merge_all (map fn (gen mx b d)).
+  merge_all (map fn (data_split mx b d)).
 
 (* ---- LazyCall(f, x) with .extra: eval() = {**f(x), **extra};
    iteration after as_dataset(b): {**f(x_i), **extra_i} for x_i, extra_i in zip(split(x), split(extra)) ---- *)
@@ -155,7 +201,7 @@ Fixpoint fapp (a b : forest) : forest :=
 Definition dict_union (a b : data) : data := Node KDict (fapp (forest_of a) (forest_of b)).
 Definition lazy_eval (fn : data -> data) (x extra : data) : data := dict_union (fn x) extra.
 Definition lazy_batches (fn : data -> data) (mx b : nat) (x extra : data) : list data :=
-  zipw dict_union (map fn (gen mx b x)) (gen mx b extra).
+  zipw dict_union (map fn (data_split mx b x)) (data_split mx b extra).
 
 (* ---- dat-file layout ---- *)
 Section Dat.
